@@ -232,9 +232,7 @@ def judgeStep (s : JudgeSt) (op out : String) : JudgeSt :=
       match expected.find? (fun w => !got.contains w) with
       | none => s
       | some w =>
-        let msg := "system-flow-not-wired-as-chain expected=" ++ pctEnc w
-        if mergedGroup s.cfg.quotas then { s with fail := s.fail <|> some ("F04e", msg) }
-        else { s with failUnk := s.failUnk <|> some msg }
+        { s with failUnk := s.failUnk <|> some ("system-flow-not-wired-as-chain expected=" ++ pctEnc w) }
   | "txn" :: rest =>
     if s.failUnk.isSome || s.bad.isSome then s else
     match words out with
